@@ -71,6 +71,27 @@ pub struct SharedInner {
 #[derive(Clone)]
 pub struct Shared(Arc<Mutex<SharedInner>>);
 
+/// the harness state of the case being executed (closures given to operators may re-enter the library: `(push ..)`)
+static CURRENT: Mutex<Option<Shared>> = Mutex::new(None);
+pub fn set_current(sh: Option<Shared>) {
+  *CURRENT.lock().unwrap_or_else(|e| e.into_inner()) = sh;
+}
+fn current() -> Option<Shared> {
+  CURRENT.lock().unwrap_or_else(|e| e.into_inner()).clone()
+}
+/// `(hnext NAME V)` built against the current case, fired at most once
+fn push_once(name: &Sexp, v: &Sexp) -> Option<Arc<dyn Fn() + Send + Sync>> {
+  let sh = current()?;
+  let sx = Sexp::List(vec![Sexp::Atom("hnext".into()), name.clone(), v.clone()]);
+  let act = subject_action(&sh, &sx)?;
+  let fired = std::sync::atomic::AtomicBool::new(false);
+  Some(Arc::new(move || {
+    if !fired.swap(true, std::sync::atomic::Ordering::SeqCst) {
+      act(0);
+    }
+  }))
+}
+
 impl Shared {
   pub fn new() -> Shared {
     Shared(Arc::new(Mutex::new(SharedInner::default())))
@@ -170,6 +191,15 @@ pub fn parse_fn(e: &Sexp) -> Option<F1> {
     });
   }
   let (h, args) = e.call()?;
+  if h == "fpush" {
+    // a user function that re-enters the library: the first time it is called it pushes V into subject NAME
+    let push = push_once(args.first()?, args.get(1)?)?;
+    let inner = parse_fn(args.get(2)?)?;
+    return Some(Arc::new(move |x: V| {
+      push();
+      inner(x)
+    }));
+  }
   let k = args.first()?.int()?;
   Some(match h {
     "add" => Arc::new(move |x: V| { let _t = &t; V::int(x.to_int() + k) }),
@@ -191,6 +221,15 @@ pub fn parse_pred(e: &Sexp) -> Option<P1> {
     });
   }
   let (h, args) = e.call()?;
+  if h == "push" {
+    // a user predicate that re-enters the library (see `fpush`)
+    let push = push_once(args.first()?, args.get(1)?)?;
+    let inner = parse_pred(args.get(2)?)?;
+    return Some(Arc::new(move |x: V| {
+      push();
+      inner(x)
+    }));
+  }
   let k = args.first()?.int()?;
   Some(match h {
     "lt" => Arc::new(move |x: V| { let _t = &t; x.to_int() < k }),
